@@ -100,7 +100,7 @@ def txcase(c):
         lim = "(Some (%s, %s))" % (VK[c["limit"]["var"]], g.fl(c["limit"]["max"]))
     quote = "(Some %s)" % g.z(c["quote"]) if c.get("has_quote") else "None"
     return "(mkTx %s %s %s %s\n    %s\n    %s\n    %s %s %s\n    %s %s)" % (
-        lim, bits(c["bits"]), nat(c["i"]), g.b(c["accept"]), obs(c["before"]), obs(c["during"]),
+        lim, bits(c["bits"]), nat(c["i"]), nat(c.get("dec", 0 if c["accept"] else 1)), obs(c["before"]), obs(c["during"]),
         g.lst([g.z(x) for x in c["changes"]]), g.b(c["valid"]), quote, obs(c["after"]), g.b(c["state_valid"]))
 
 
